@@ -26,11 +26,11 @@ def case(s):
 # ------------------------------------------------------------------ layout noise
 GAPS = [" ", "  ", "\t", " \t", "\t \t", "\n", "\r\n", "\n\t", "\n    ", " // c\n", "//\n", "// é \t x\r\n",
         "/**/", "/* x */", " /* a\n\tb */ ", "/* é\t*/", "/*/ */", "\n\n", " \r ", "/* * / */\t"]
-KEYWORDS = ["a", "leaf", "é", "日本", "a-b:c", "x/y", "+", "+a", "a+", "/", "pattern", "0"]
+KEYWORDS = ["a", "leaf", "é", "日本", "a-b:c", "x/y", "+", "+a", "a+", "/", "pattern", "0", "oc-ext:posix-pattern", "o:pattern", "posix-pattern"]
 UNQ_ARGS = ["b", "1..2", "é", "x:y", "a/b", "+", "//x"[2:], "a\\b"]
 SQ_ARGS = ["'b'", "''", "' \t'", "'a\nb'", "'é\r\nq'", "'\"'", "'a // b'", "'/*'"]
 DQ_ARGS = ['"b"', '""', '"a b"', '"a\n   b"', '"a \t\n\t  b"', '"\\n\\t\\"\\\\"', '"é\n\tü"', '"a\r\nb"', '"}"', '";{"',
-           '"a\n\n  \n b"', '"//"', '"/* x"']
+           '"a\n\n  \n b"', '"//"', '"/* x"', '"^\\d+$"']
 
 
 def gap(rnd, need):
@@ -636,22 +636,55 @@ def run_semantic(res, tier, rnd):
             for lg in ([LONG_GAPS[k % len(LONG_GAPS)]] if tier == "quick" else LONG_GAPS):
                 fs, marker = build_sem_case(rnd, label, cls, False, files, counter, names=(k % 2 == 0), long_gap=lg)
                 built.append((label + ":long-line", cls, fs, marker))
-    plines = [sem_case_line(fs) for _, _, fs, _ in built]
+    # modules found BY NAME in the current directory (Read / GetModule / import loaded on demand by Process), undated and dated
+    # file names, with an older dated decoy: positions must carry exactly the name of the file that was read
+    cwd_lines = {}
+    main_m = 'module m { namespace "urn:m"; prefix m; import a { prefix a; } }'
+    k = 0
+    for label, cls, nestable, files in SEM_CASES:
+        if len(files) != 1 or files[0][0] != "a.yang" or not files[0][1].startswith("module a {") or "@@" not in files[0][1]:
+            continue
+        for v in range(1 if tier == "quick" else 6):
+            k += 1
+            fs, marker = build_sem_case(rnd, label, cls, False, files, counter)
+            fname = ["a.yang", "a@2020-02-02.yang", "a@2031-12-31.yang"][k % 3]
+            mode = ["read", "import", "get", "read-full-name"][(k // 3) % 4]
+            fs = [(fname, fs[0][1])]
+            marker = (fname, marker[1], marker[2])
+            ops = ["W0"]
+            if fname != "a.yang" and k % 2:
+                fs.append(("a@2001-01-01.yang", 'module a { namespace "urn:old"; prefix a; }'))      # an older revision lies around
+                ops.append("W1")
+            if mode == "import":
+                fs.append(("m.yang", main_m))
+                ops += ["L%d" % (len(fs) - 1), "P"]
+            elif mode == "get":
+                ops += ["G" + hx("a"), "P"]
+            elif mode == "read-full-name":
+                ops += ["R" + hx(fname), "P"]
+            else:
+                ops += ["R" + hx("a"), "P"]
+            built.append((label + ":cwd-" + mode, cls, fs, marker))
+            cwd_lines[len(built) - 1] = "cwdload %s %d %s" % (",".join(ops), len(fs), " ".join("%s %s" % (hx(n), hx(t)) for n, t in fs))
+    plines = [cwd_lines.get(i) or sem_case_line(fs) for i, (_, _, fs, _) in enumerate(built)]
     tmp = tempfile.mkdtemp(prefix="c16cwd")
     pout = lib.run_go(plines, cwd=tmp)
     # statement lists of every file text
     texts = sorted({t for _, _, fs, _ in built for _, t in fs})
     fobs = dict(zip(texts, lib.run_go(["parse " + hx(t) for t in texts])))
-    stats = dict(cases=len(built), prefix_exact=0, positions_checked=0, exact_checked=0, untriggered=0, by_class={}, unparsable_files=0, labels=len(SEM_CASES))
+    stats = dict(cases=len(built), loaded_by_name_from_cwd=len(cwd_lines), prefix_exact=0, positions_checked=0, exact_checked=0, untriggered=0, by_class={}, unparsable_files=0, labels=len(SEM_CASES))
     viol = 0
 
     def bad(what, label, fs, extra):
         nonlocal viol
         viol += 1
         if viol <= 4:
-            res.violation("%s [case %s]" % (what, label), dict(kind="semantic-position", label=label, files=[[n, t] for n, t in fs], **extra))
+            res.violation("%s [case %s]" % (what, label), dict(kind="semantic-position", label=label, files=[[n, t] for n, t in fs],
+                                                              go_case=cur[0], **extra))
 
+    cur = [None]
     for (label, cls, fs, marker), line, o in zip(built, plines, pout):
+        cur[0] = line
         try:
             j = json.loads(o)
         except ValueError:
@@ -660,6 +693,8 @@ def run_semantic(res, tier, rnd):
         msgs = [l[5:] for l in j.get("loads", []) if l.startswith("err: ")]
         for r in j.get("runs", []):
             msgs += r.get("errors", [])
+        msgs += j.get("errors", [])
+        msgs = list(dict.fromkeys(msgs))
         names = {n for n, _ in fs}
         stmts = {}
         for n, t in fs:
@@ -799,7 +834,7 @@ def replay(rep, res):
     if rep.get("kind") == "semantic-position":
         fs = [(n, t) for n, t in rep["files"]]
         tmp = tempfile.mkdtemp(prefix="c16cwd")
-        o = lib.run_go([sem_case_line(fs)], cwd=tmp)[0]
+        o = lib.run_go([rep.get("go_case") or sem_case_line(fs)], cwd=tmp)[0]
         print("files:")
         for n, t in fs:
             print("  %s: %r" % (n, t))
